@@ -6,9 +6,9 @@
    of all read events, read off the observations. *)
 From EN Require Import Lib.Bytes
                        Frame.Framer Frame.ReadUntil Stream.Consumer Stream.SpecDecode Stream.Endpoint Stream.EndpointSpec
-                       Conc.SockReader Conc.SockReaderSpec Conc.BlockRecv Conc.SockEndpoint
+                       Conc.SockReader Conc.SockReaderSpec Conc.BlockRecv Conc.SockEndpoint Conc.SockFlow
                        Proofs.C10_refute Proofs.C10_inv Proofs.C10_obs Proofs.C10_queue Proofs.C10_blocking
-                       Proofs.C10_endpoint Proofs.C10_endpoint_inst Proofs.C10_reexport.
+                       Proofs.C10_endpoint Proofs.C10_endpoint_inst Proofs.C10_reexport Proofs.C10_flow.
 
 (* F4 (defect of the unchanged tree): recv_into(8); read event "hello"; task.cancel(); next iteration; wake-up
    (CancelledError); read event " world"; recv(64) returns " world" -- "hello" is gone, no error is reported. *)
@@ -168,6 +168,38 @@ Example endpoint_cancel_example :
                [ERecvPacket; ESock (LData [97; 98]%N); ESock LCancel; ESock LTurn; ESock LWake;
                 ESock (LData [10; 99; 10]%N); ERecvPacket; ESock LTurn; ESock LWake])
   = [RPkt [97; 98]%N].
+Proof. vm_compute. reflexivity. Qed.
+
+(* Read flow control (Conc/SockFlow.v: finite buffer that the fix may grow, pause_reading() at the high-water mark,
+   resume_reading() at the low-water mark, a paused transport delivers nothing), for any marks low < high <= max_size and
+   every label sequence: nothing is lost under flow control either ... *)
+Theorem flow_no_loss : forall (p : fparams), flo p < fhigh p -> fhigh p <= fmax p ->
+  forall ls,
+    let s := fs (frun true p ls) in
+    exists tail, returned s ++ parked s ++ tail = delivered s /\ (tail <> [] -> lost_exc s <> None).
+Proof. exact flow_no_loss_proof. Qed.
+Print Assumptions flow_no_loss.
+
+(* ... and while the connection is up: a transport that is not paused always finds room (get_buffer() is never empty:
+   fill < len(buffer)); an empty buffer is never paused (the `assert not self.__read_paused` of the slow path of
+   _wait_for_data holds, and a reader waiting for data is never starved by a forgotten pause); paused implies more than
+   the low-water mark is parked, not paused implies less than the high-water mark. *)
+Theorem flow_bounds : forall (p : fparams), flo p < fhigh p -> fhigh p <= fmax p ->
+  forall ls,
+    let f := frun true p ls in
+    lost (fs f) = false ->
+    (fpaused f = false -> length (ibuf (fs f)) < fcap f) /\
+    (ibuf (fs f) = [] -> fpaused f = false) /\
+    (fpaused f = true -> flo p < length (ibuf (fs f))) /\
+    (fpaused f = false -> length (ibuf (fs f)) < fhigh p).
+Proof. exact flow_bounds_proof. Qed.
+Print Assumptions flow_bounds.
+
+(* non-vacuity: with max 8 / high 6 / low 2, six parked bytes pause the transport and reading five of them resumes it *)
+Example flow_pause_resume_example :
+  map snd (snd (fexec true {| fmax := 8; fhigh := 6; flo := 2 |} (finit {| fmax := 8; fhigh := 6; flo := 2 |})
+                      [LData [1;2;3;4;5;6]%N; LRecv 5; LTurn; LWake]))
+  = [true; true; true; false].
 Proof. vm_compute. reflexivity. Qed.
 
 (* Blocking half (lowlevel/api_sync/endpoints/stream.py, Conc/BlockRecv.v).  For ANY consumer whose next(None) after a
